@@ -15,6 +15,13 @@ def build_fd(fedjax, kind, ids, path=None):
     # the same id population as str objects (trailing NULs and prefixes included); in-memory data accepts any hashable id
     sdata = {cid.decode('latin1'): v for cid, v in data.items()}
     return fedjax.InMemoryFederatedData(sdata), sdata
+  if kind == 'subsetdup':
+    # a subset view built from a LIST that names two clients twice: still one entry per client
+    more = dict(data)
+    more[b'\xff\xff'] = {'x': np.arange(2, dtype=np.int32) - 7, 'who': np.full((2,), -1, np.int32)}
+    base = fedjax.InMemoryFederatedData(more)
+    lst = list(ids)
+    return fedjax.SubsetFederatedData(base, lst + lst[:2]), data
   if kind in ('subset', 'slice'):
     # derived views of a larger in-memory dataset (two more clients after the last id)
     more = dict(data)
@@ -53,14 +60,48 @@ def main():
   fd, data = build_fd(fedjax, job['fd_kind'], ids, job.get('path'))
   out = []
   sampler = None
+
+  class Flaky:
+    """The dataset, except that an armed get_clients fails once (after handing out its first client) like an I/O error."""
+
+    def __init__(self, inner):
+      self._inner, self.armed = inner, False
+
+    def get_clients(self, client_ids):
+      it = self._inner.get_clients(client_ids)
+      if self.armed:
+        self.armed = False
+        first = True
+        for item in it:
+          if not first:
+            raise OSError('injected read failure')
+          first = False
+          yield item
+        raise OSError('injected read failure')
+      yield from it
+
+    def __getattr__(self, a):
+      return getattr(self._inner, a)
+
+  flaky = Flaky(fd)
   for op in job['ops']:
     if op['op'] == 'new':
       if job['kind'] == 'get':
-        sampler = fedjax.client_samplers.UniformGetClientSampler(fd, job['cohort'], job['seed'], start_round_num=op['r'])
+        sampler = fedjax.client_samplers.UniformGetClientSampler(flaky, job['cohort'], job['seed'], start_round_num=op['r'])
       else:
         sampler = fedjax.client_samplers.UniformShuffledClientSampler(
             fd.shuffled_clients(buffer_size=job['buffer'], seed=job['seed']), job['cohort'], start_round_num=op['r'])
       out.append({'e': 'New', 'r': op['r']})
+    elif op['op'] == 'sample_fail':
+      if job['kind'] != 'get':
+        continue
+      flaky.armed = True
+      try:
+        list(sampler.sample())
+        out.append({'e': 'SampleFailed', 'note': 'no failure reached the caller'})
+      except OSError:
+        out.append({'e': 'SampleFailed'})
+      flaky.armed = False
     elif op['op'] == 'set_round':
       sampler.set_round_num(op['r'])
       out.append({'e': 'SetRound', 'r': op['r']})
